@@ -1813,16 +1813,19 @@ pub struct Entry {
     /// exhaustive single faults in the thorough tier
     pub heavy: bool,
     /// uses the `enforce_canonical = false` path of `assigned_to_le_bits` (known
-    /// finding: unsatisfiable when x = 0 mod 2^LOG2_BASE or x is un-normalised);
+    /// finding: unsatisfiable when x = 0 mod 2^LOG2_BASE, x is un-normalised, or
+    /// x = 0 with a bit bound);
     /// such inputs are excluded (and counted) in the main streams
     pub ecf: bool,
 }
 
 /// Is `x` an input on which the `enforce_canonical = false` path is known to be
 /// unsatisfiable (adding 1 to the stored representation overflows limb 0)?
-pub fn ecf_known_input(md: &FModel, x: &BigUint) -> bool {
+/// With a bit bound (`nb_bits` / `nb_chunks` given) zero is affected as well: on
+/// that path it is decomposed as the integer m (stored m-1, plus one).
+pub fn ecf_known_input(md: &FModel, x: &BigUint, bounded: bool) -> bool {
     let stored = (x % &md.m + &md.m - BigUint::one()) % &md.m;
-    (&stored % md.base()) == md.base() - BigUint::one()
+    (&stored % md.base()) == md.base() - BigUint::one() || (bounded && (x % &md.m).is_zero())
 }
 
 pub fn e(prog: Prog, label: &'static str) -> Entry {
